@@ -286,6 +286,8 @@ impl Slots {
                     // belong to someone else by now) and the thread continues with another one.
                     // The envelope we offer must come from the node we own *now*.
                     let me = current();
+                    #[cfg(arc_swap_verif)]
+                    verif_rt::probe(verif_rt::probes::HELP_REPLACEMENT_LOADED, true);
                     // If we succeed in helping the other thread, we take their empty space in
                     // return for us that we pass to them. It's already there, the value is synced
                     // to us by Acquire on control.
@@ -310,7 +312,7 @@ impl Slots {
                     {
                         Ok(_) => {
                             #[cfg(arc_swap_verif)]
-                            verif_rt::probe(verif_rt::probes::HELP_SUCCEEDED, false);
+                            verif_rt::probe(verif_rt::probes::HELP_SUCCEEDED, true);
                             // We have successfully sent our replacement out (Release) and got
                             // their space in return (Acquire on that load above).
                             me.space_offer.store(their_space, SeqCst);
